@@ -126,6 +126,41 @@ func genC05(ctx *Ctx) {
 		}
 		emitHistory(ctx.Rnd.Intn(4), texts)
 	}
+	// scale: long histories - 40 and 120 inputs on one tokenizer instance, 40 and 120 expressions on one parser / calculator,
+	// 40 and 120 templates on one template object (every step still compared with a fresh instance)
+	for _, n := range []int{40, 120} {
+		for kind := 0; kind < 4; kind++ {
+			var texts []string
+			for j := 0; j < n; j++ {
+				texts = append(texts, c05Pool[(j*7+kind+j/5)%len(c05Pool)])
+			}
+			emitHistory(kind, texts)
+		}
+		var steps, tsteps sx.List
+		bad2 := []string{"a +", "f(", "(a", "a $ b", "", "1 + 2 )"}
+		for j := 0; j < n; j++ {
+			var text string
+			switch {
+			case j%6 == 5:
+				text = bad2[(j/6)%len(bad2)]
+			case j%4 == 3 && j > 0:
+				text = sx.AsString(sx.AsList(steps[j-1])[0])
+			default:
+				t := genTree(ctx.Rnd, 1+ctx.Rnd.Intn(3))
+				p := &printer{rnd: ctx.Rnd, parens: ctx.Rnd.Intn(3)}
+				text = p.at(t, 0)
+			}
+			steps = append(steps, exprInput(text, sx.L(), nil))
+			tpl := mPrint(ctx.Rnd, genMNodes(ctx.Rnd, 1+ctx.Rnd.Intn(2)))
+			if j%5 == 4 {
+				tpl = []string{"{{#a}}x", "{{/a}}", "{{a", "text only"}[(j/5)%4]
+			}
+			tsteps = append(tsteps, mInput(tpl, genVars(ctx.Rnd), sx.L()))
+		}
+		ctx.Count("scale-history")
+		ctx.Input(sx.L(sx.I(1), steps), true)
+		ctx.Input(sx.L(sx.I(2), tsteps), true)
+	}
 	// template histories
 	for i := 0; i < ctx.N/4; i++ {
 		n := 2 + ctx.Rnd.Intn(5)
